@@ -503,7 +503,9 @@ def native_path_choice(chk):
     --path argument if given, else the configured path, else ./contracts -- also when that directory cannot be read"""
     text = 'pragma solidity 0.8.16;\ncontract Sel {\n    uint256 st; function w() public { st = 1; }\n}\n'
     n = 0
-    for arg, cfgp, contracts in itertools.product(('none', 'dir', 'missing', 'file'), ('none', 'dir', 'missing'), (True, False)):
+    for arg, cfgp, contracts, tomldir in itertools.product(('none', 'dir', 'missing', 'file'), ('none', 'dir', 'missing'), (True, False), ('', 'cfg')):
+        if tomldir and cfgp == 'none':
+            continue
         d = os.path.join(chk.native.dir, 'pc%d' % chk.native.n)
         chk.native.n += 1
         os.makedirs(d)
@@ -511,12 +513,18 @@ def native_path_choice(chk):
             os.makedirs(os.path.join(d, sub))
             open(os.path.join(d, sub, fname), 'w').write(text)
         open(os.path.join(d, 'afile'), 'w').write(text)
+        if tomldir:
+            # the configuration file lives in another directory, next to directories of the same names: relative paths are relative to the
+            # working directory, not to the configuration file
+            for sub in ('argdir', 'cfgdir', 'contracts'):
+                os.makedirs(os.path.join(d, tomldir, sub))
+                open(os.path.join(d, tomldir, sub, 'FromNextToConfig.sol'), 'w').write(text)
         cmd = [os.path.join(chk.world.build, 'solstat')]
         if arg != 'none':
             cmd += ['--path', {'dir': 'argdir', 'missing': 'no-such-dir', 'file': 'afile'}[arg]]
         if cfgp != 'none':
-            open(os.path.join(d, 'cfg.toml'), 'w').write('path = "%s"\noptimizations = ["sstore"]\nvulnerabilities = []\nqa = []\n' % {'dir': 'cfgdir', 'missing': 'no-such-cfg-dir'}[cfgp])
-            cmd += ['--toml', 'cfg.toml']
+            open(os.path.join(d, tomldir, 'cfg.toml'), 'w').write('path = "%s"\noptimizations = ["sstore"]\nvulnerabilities = []\nqa = []\n' % {'dir': 'cfgdir', 'missing': 'no-such-cfg-dir'}[cfgp])
+            cmd += ['--toml', os.path.join(tomldir, 'cfg.toml')]
         p = subprocess.run(cmd, cwd=d, stdout=subprocess.PIPE, stderr=subprocess.PIPE, text=True)
         chk.validated += 1
         n += 1
@@ -533,8 +541,8 @@ def native_path_choice(chk):
         if readable and (p.returncode != 0 or want - listed):
             bad.append('exit status %d, findings of %s missing' % (p.returncode, sorted(want - listed)))
         if bad:
-            chk.violation('main:analysed-directory', 'solstat with --path %s, configured path %s, ./contracts %s: %s' % (arg, cfgp, 'present' if contracts else 'absent', '; '.join(bad)),
-                          {'job': 'solstat_dirs', 'arg': arg, 'cfg': cfgp, 'contracts': contracts, 'observed': rep[:300], 'exit': p.returncode})
+            chk.violation('main:analysed-directory', 'solstat with --path %s, configured path %s%s, ./contracts %s: %s' % (arg, cfgp, ' (configuration file in another directory)' if tomldir else '', 'present' if contracts else 'absent', '; '.join(bad)),
+                          {'job': 'solstat_dirs', 'arg': arg, 'cfg': cfgp, 'contracts': contracts, 'tomldir': tomldir, 'observed': rep[:300], 'exit': p.returncode})
         else:
             chk.ok()
     chk.sample({'analysed directory': '%d runs of the compiled binary: --path x configured path x ./contracts, readable or not' % n})
